@@ -146,11 +146,18 @@ def load_json(path, default):
         return default
 
 
-def finding_matches(f, pid, clause, assign):
+def finding_matches(f, pid, clause, assign, label=None):
+    """a listed finding covers a failure only if the property, the clause (one of `clauses`, or `clause`, a trailing * being a prefix match), the failing input (`where`,
+    an expression over the assignment) and -- when given -- a substring of the failure label (`failure_contains`, e.g. the exception message) all match: a different
+    failure at the same input is still reported"""
     if f.get("property") != pid:
+        return False
+    if f.get("clauses") and clause not in f["clauses"]:
         return False
     fc = f.get("clause")
     if fc and fc != clause and not (fc.endswith("*") and clause.startswith(fc[:-1])):
+        return False
+    if f.get("failure_contains") and f["failure_contains"] not in (label or ""):
         return False
     where = f.get("where")
     if where:
@@ -389,7 +396,7 @@ def main(argv=None):
                             checker_errors.append(msg)
                         continue
                     clause = f"{cd.full}.{lab.split(':')[0] if lab.startswith('exception') else lab}"
-                    hit = next((f for f in known["findings"] if finding_matches(f, pid, clause, fl["assign"])), None)
+                    hit = next((f for f in known["findings"] if finding_matches(f, pid, clause, fl["assign"], lab)), None)
                     if hit:
                         if (hit, clause) not in known_hits:
                             known_hits.append((hit, clause))
